@@ -394,9 +394,14 @@ class HttpParser(abc.ABC, Generic[_MsgT]):
 
                     # line found
                     line = data[start_pos:pos]
+                    line_len = len(line)
                     if SEP == b"\n":  # For lax response parsing
+                        # one CR belongs to the line terminator; further trailing
+                        # CRs are tolerated but count against the limit (a read
+                        # that ends inside them is measured the same way)
+                        line_len -= line.endswith(b"\r")
                         line = line.rstrip(b"\r")
-                    if len(line) > max_line_length:
+                    if line_len > max_line_length:
                         raise LineTooLong(line[:100] + b"...", max_line_length)
 
                     self._lines.append(line)
@@ -550,7 +555,11 @@ class HttpParser(abc.ABC, Generic[_MsgT]):
                     # bytes get appended to this line and leak in the error.
                     if b"\n" in self._tail:
                         raise BadHttpMessage("Bad line ending, expected CRLF")
-                    if len(self._tail) > max_line_length:
+                    # A CR that ends the buffered part may be the first half of
+                    # the line terminator: like for a complete line, it does not
+                    # count.
+                    tail_len = len(self._tail) - self._tail.endswith(b"\r")
+                    if tail_len > max_line_length:
                         raise LineTooLong(self._tail[:100] + b"...", max_line_length)
                     data = EMPTY
                     break
@@ -1021,7 +1030,12 @@ class HttpPayloadParser:
                     max_line_length = self._max_line_size
                     if self._chunk == ChunkState.PARSE_TRAILERS:
                         max_line_length = self._max_field_size
-                    if len(self._chunk_tail) > max_line_length:
+                    # As for a complete line, the CR of the line terminator
+                    # does not count (a lax chunk-size line keeps it).
+                    tail_len = len(self._chunk_tail)
+                    if SEP == b"\r\n" or self._chunk == ChunkState.PARSE_TRAILERS:
+                        tail_len -= self._chunk_tail.endswith(b"\r")
+                    if tail_len > max_line_length:
                         raise LineTooLong(
                             self._chunk_tail[:100] + b"...", max_line_length
                         )
@@ -1134,10 +1148,12 @@ class HttpPayloadParser:
 
                     line = chunk[:pos]
                     chunk = chunk[pos + len(SEP) :]
+                    line_len = len(line)
                     if SEP == b"\n":  # For lax response parsing
+                        line_len -= line.endswith(b"\r")
                         line = line.rstrip(b"\r")
 
-                    if len(line) > self._max_field_size:
+                    if line_len > self._max_field_size:
                         raise LineTooLong(line[:100] + b"...", self._max_field_size)
 
                     self._trailer_lines.append(line)
